@@ -644,6 +644,14 @@ def n4(ck: Check) -> None:
                                 continue
                             ck.ob("N4", fm, n, False, f"module attribute `{d}` is written: process-wide state")
                     if isinstance(t, ast.Subscript):
+                        b = t.value
+                        while isinstance(b, (ast.Subscript, ast.Attribute)):
+                            b = b.value
+                        if isinstance(b, ast.Name) and b.id in module_names.get(f.module.name, ()) and b.id not in f.params():
+                            locals_ = {x.id for x in own_walk(f.node) if isinstance(x, ast.Name) and isinstance(x.ctx, ast.Store)}
+                            if b.id not in locals_:
+                                ck.ob("N4", fm, n, False, f"module-level object `{b.id}` is written (`{text(t)[:40]}`): state "
+                                                          f"shared by all diagrams and calls in the process")
                         d = dotted(t.value) or ""
                         if d.endswith("config") or d == "config":
                             ck.ob("N4", fm, n, False, f"configuration is modified in place (`{text(t)}`): a config object "
